@@ -113,10 +113,11 @@ class Ref:
             self.state = 'ground'
             return
         if st == 'osc_code':
-            v = self.among(c, [ord('R'), ord('P'), ord('p')])
+            v = self.among(c, [ord('R'), ord('P')])
             if v is not None:
-                # Linux palette sequences: the statement does not fix their extent
-                self.assumed_away = True
+                # Linux console palette sequences (reset / set palette) have no terminator: the
+                # recogniser returns to ground right after the code (pyte; C03's own rationale names
+                # "OSC P swallows all following output" as the defect)
                 self.state = 'ground'
                 return
             self.osc_code = c
